@@ -99,6 +99,13 @@ Section Encryption.
 
   Definition decode_rows := decode_rows_with decode_val.
   Definition decode_rows_unguarded := decode_rows_with decode_val_unguarded.
+
+  (* recv_results_rows: `column_metadata = self.column_metadata or result_metadata` -- the metadata carried by the ROWS
+     frame itself (always on v3/v4 without skip_meta; on v5 when the server says Metadata_changed) wins over the
+     metadata cached with the prepared statement; column names, types, ColDescs and the cell count all come from it *)
+  Definition recv_rows (frame : option (list (column T))) (cached : list (column T))
+             (rows : list (list (option (list Z)))) : option (list (list (option V))) :=
+    decode_rows (match frame with Some c => c | None => cached end) rows.
 End Encryption.
 
 (* ---- running cases: values are their own serialization (the codec is abstract), AES replaced by the identity;
@@ -117,6 +124,10 @@ Definition c39_run (iv : list Z) (keys : list (option (list Z))) (rows : list (l
 
 Definition c39_decode (keys : list (option (list Z))) (wire : list (list (option (list Z)))) :=
   decode_rows (list Z) unit c39_deser id_cipher (map c39_col keys) wire.
+
+Definition c39_recv (frame : option (list (option (list Z)))) (cached : list (option (list Z))) (wire : list (list (option (list Z)))) :=
+  recv_rows (list Z) unit c39_deser id_cipher
+            (match frame with Some k => Some (map c39_col k) | None => None end) (map c39_col cached) wire.
 
 Fixpoint c39_zeqb (a b : list Z) : bool :=
   match a, b with
